@@ -1,4 +1,4 @@
-SAN = ['-fsanitize=address,undefined', '-fno-sanitize-recover=undefined', '-fno-omit-frame-pointer']
+SAN = ['-fsanitize=address,undefined', '-fno-sanitize-recover=undefined', '-fno-omit-frame-pointer', '-g1']
 PROPS['C13'] = dict(
     level='exploration',
     engine='rapidcheck + libFuzzer (ASan, UBSan)',
